@@ -21,6 +21,7 @@ TRUSTED = ['networkx descendants/ancestors/has_path/is_directed_acyclic_graph ar
 
 
 def ref_build(spec, b):
+    spec = builder.expand_star(spec)
     fs = {str(b.path(rel)): pl.subst_paths(d, b) for rel, d in spec['files'].items()}
     classes = {cid: {**c, 'slug': builder.gen.slug_of(c, spec['module'])} for cid, c in spec['classes'].items()}
     ctx = pl.subst_paths(spec.get('context'), b) if spec.get('context') is not None else None
@@ -114,6 +115,15 @@ def check_case(ctx, spec, root, tag, model_out):
                         ctx.fail('dependent_tasks / required_tasks are not the transitive closures of the declared relation', full_case,
                                  {'task': n, 'dependent': sorted(dn), 'expected': sorted(desc[n]), 'required': sorted(rq), 'expected_required': sorted(exp_rq)})
                         break
+                    # the same queries without the task itself, asked AFTER the inclusive ones (and twice): an answer does not depend on
+                    # what was asked before
+                    for _ in range(2):
+                        dn0 = {name_of[id(t)] for t in chain.dependent_tasks(n)}
+                        rq0 = {name_of[id(t)] for t in chain.required_tasks(n)}
+                        if dn0 != desc[n] - {n} or rq0 != exp_rq - {n}:
+                            ctx.fail('dependent_tasks / required_tasks (without the task itself) are not the proper transitive closures', full_case,
+                                     {'task': n, 'dependent': sorted(dn0), 'expected': sorted(desc[n] - {n}), 'required': sorted(rq0), 'expected_required': sorted(exp_rq - {n})})
+                            break
                     for m in nodes_ref:
                         if chain.is_task_dependent_on(m, n) != (m in desc[n]):
                             ctx.fail('is_task_dependent_on disagrees with the transitive closure', full_case, {'task': m, 'on': n})
@@ -172,6 +182,8 @@ def run(ctx):
         specs.append(builder.gen_case(ctx.rng('conflict', i), conflict=True))
     for i in range(ctx.n(40, 400)):
         specs.append(builder.gen_pattern_case(ctx.rng('pattern-up', i)))
+    for i in range(ctx.n(30, 300)):
+        specs.append(builder.gen_wildcard_case(ctx.rng('wildcard', i)))
     reqs = []
     for i, spec in enumerate(specs):
         b = pl.Built(root / f'c{i}', spec['module'], spec)
